@@ -549,3 +549,6 @@ class World(EventDispatcher):
         self.id_generator = self.id_generator_factory()
 
         super().clear()     # Clear event dispatching system
+
+        # Keep listening to self dispatched events (see __init__)
+        self.add_handler(self)
